@@ -22,6 +22,8 @@ def run(ctx):
     monitor.enable(*monitors(ctx))
     from .. import w_suite
     w_suite.maybe(ctx)      # thorough tier: the repository's own tests under this property's monitors
+    from .. import w_misc
+    w_misc.drive_session(ctx, ctx.tier)   # long-lived signature objects through many operations
     ctx.floor('C09.aligned', 300)
     ctx.floor('C09.law_fold', 50)
     ctx.floor('C09.law_roundtrip', 100)
